@@ -157,6 +157,66 @@ PROPS = {
                    'discopy: the spider rule is checked in the convention in which it is a derivative (DESIGN 6/C15). '
                    'Known finding F10 (pure symbolic scalar under the default mixed gradient).',
         technique='symbolic execution of the real grad code on f(x) + polynomial identities discharged by z3'),
+    'C03': dict(
+        title='Equality is structural, hash-consistent and printable',
+        level='proof',
+        vc=['lemma:eqhash:cat.Ob', 'lemma:eqhash:cat.Arrow', 'lemma:eqhash:cat.Box', 'lemma:eqhash:cat.Sum',
+            'lemma:eqhash:monoidal.Ty', 'lemma:eqhash:monoidal.Diagram', 'lemma:eqhash:rigid.Ob'],
+        sym=[], rtc='C03',
+        level_text='Proof (congruence): for the seven classes of the anchors the attribute sets compared by __eq__ and read '
+                   'by __repr__ / __hash__ are extracted from the current AST on every run; with uninterpreted attribute '
+                   'values z3 (EUF) discharges "a == b implies every printed / hashed field agrees" (so equal values print '
+                   'and hash alike) and "__eq__ compares exactly the structural fields the property names". Reflexivity, '
+                   'symmetry across classes (box vs wrapping diagram, rigid vs cat objects), transitivity, hash equality '
+                   'of equal values and eval(repr(v)) == v need Python dispatch and the parser: bounded stand-in over '
+                   '~110 values incl. adjoints, daggers, payloads, sums, PRO.',
+        level_note='Trusted: the attribute extraction (contracts/eqhash.py), z3. Payload precondition: names and data are '
+                   'repr-faithful (p == q iff repr(p) == repr(q)); Ty(1) == Ty(1.0) with different hashes is outside it.',
+        technique='congruence obligations read off the real AST (z3 EUF) + bounded run-time contracts'),
+    'C04': dict(
+        title='Functors are functorial',
+        level='exploration',
+        vc=[], sym=[], rtc='C04',
+        level_text='Bounded stand-in only: functoriality as == (dom/cod, then, tensor, id, dagger, every slice, sums, bubbles; '
+                   'adjoints of any winding number, cups, caps, swaps for rigid functors) on all monoidal diagrams with <= 2 '
+                   '(thorough 3) boxes x 3 object maps with images of length 0/1/2 x composite box images x dict/callable, '
+                   'plus cat and rigid samples. The loop invariants of DESIGN 6/C04 are not discharged in this build.',
+        level_note='No obligation is proved for this property; run-time contracts on enumerated inputs.',
+        technique='bounded run-time contracts (stand-in); contracts stated in DESIGN.md not discharged'),
+    'C06': dict(
+        title='Monoidal normal form is a sound, idempotent, canonical representative',
+        level='exploration',
+        vc=[], sym=[], rtc='C06',
+        level_text='Bounded stand-in: every diagram with 2..3 (thorough 4) boxes over 10 box kinds: the interchanger class is '
+                   'computed by BFS under the real adjacent interchange (itself under a discharged contract, C05); normal_form '
+                   'is reachable, idempotent, equal across the class for connected diagrams (left and right), every yielded '
+                   'step is one legal interchange, NotImplementedError only on disconnected diagrams; foliation / flatten / depth. '
+                   'Termination and confluence are whole-history properties (Delpeuch-Vicary) outside per-call contracts.',
+        level_note='No obligation proved here beyond those of C05 on interchange itself.',
+        technique='bounded run-time contracts against the BFS closure of the verified single-step interchange'),
+    'C07': dict(
+        title='Snake removal is sound for rigid diagrams',
+        level='exploration',
+        vc=[], sym=[], rtc='C07',
+        level_text='Bounded stand-in: all rigid diagrams with <= 3 (thorough 4) boxes over 13 box kinds (cups and caps in all '
+                   'four orientations incl. non-snake adjacent pairs, adjoint wires, a scalar, daggers) on 5 domains plus '
+                   'transposes and obstructed snakes: every yielded step and the normal form are well-typed, keep dom/cod, '
+                   'denote the same tensor under a rigid functor into tensors (random integer arrays), no matching cap/cup '
+                   'pair is left, only NotImplementedError escapes.',
+        level_note='No obligation proved for this property; contracts for follow_wire / find_snake / unsnake are stated in '
+                   'DESIGN.md and not discharged in this build.',
+        technique='bounded run-time contracts with an independent wire-tracking oracle and tensor semantics'),
+    'C10': dict(
+        title='Swaps and permutations realise exactly the requested wire permutation',
+        level='exploration',
+        vc=[], sym=[], rtc='C10',
+        level_text='Bounded stand-in: in each of the five classes, swap(l, r) for all types of length <= 2 (thorough 3) over 3 '
+                   'atoms and permutation(perm, dom) for all permutations of length <= 4 (thorough 5): type, adjacent swaps '
+                   'only, wire map tracked independently by labelling wires, count |l|*|r|, representation invariant; '
+                   'non-permutations and length mismatches refused with ValueError.',
+        level_note='No obligation proved; the induction on len(left) and the permutation loop invariant of DESIGN 6/C10 are not '
+                   'discharged in this build.',
+        technique='bounded run-time contracts with an independent wire-tracking oracle'),
     'C05': dict(
         title='Interchange moves exactly one box past a disconnected neighbour',
         level='proof',
